@@ -21,7 +21,7 @@ probe 180, shutdown 60, term 60, staleRunLock 60; for `sb`: booting 100, probe 3
      → per step `c<len(creating)>u<Unallocated>q<AtQuota>w<workers>a<Create returned>` joined by ','
   o1 <st<u>|pa<u/…|->|sd<u>,…>                                 runner objects of one Idle run-mode worker: StartContainer (the
      `crunch-run --detach` stays outstanding), probe applied with the listed uuids, completion of the outstanding start
-     → `<S> sg=<…> rg=<…> ex=<…>`, or `panic close of closed channel` (finding F15a)
+     → `<S> sg=<…> rg=<…> ex=<…>`, or `panic close of closed channel` (cannot happen since the fix of F15a)
 Scheduler response ops:
   sw <entries> <running> <qupdated> <anyunknown> <latched>       one sync pass (formats of C14 `sy`) → `forgets;effects;wake=<0|1>`
   fl <tl 0|1> <snap;snap;…>   snap = <unknown 0|1>~<entries>~<running u,…>   fixStaleLocks; every wait ends by a pool
